@@ -81,7 +81,7 @@ def rule_signed_range(ctx) -> None:
     want = "input_image[:self.IMG_DIGEST_OFFSET] + input_image[self.IMG_BCA_OFFSET:self.IMG_SIGNED_HEADER_END] + input_image[self.IMG_DATA_START:]"
     chk.decide(d is not None and norm(d) == want, "C02.sign-what-precedes", vx.qual, "signed data = header up to the digest | BCA..FCF | data from IMG_DATA_START", norm(d) if d is not None else "", want, A.loc(MIX, vx.node))
     bt = ctx.cls(MIX, "Mbi_MixinBcaTable")
-    f = lambda k: ctx.prog.fold(bt.consts.get(k), bt.module, bt)  # noqa: E731
+    f = lambda k: ctx.prog.fold(bt.consts.get(k), bt.module, bt, None, 1)  # noqa: E731  (class-body expression: bare names are class constants)
     v = {k: f(k) for k in ("IMG_DIGEST_OFFSET", "IMG_DIGEST_SIZE", "IMG_SIGNATURE_OFFSET", "IMG_BCA_OFFSET", "IMG_SIGNED_HEADER_END", "IMG_FCF_OFFSET", "IMG_ISK_OFFSET", "IMG_DATA_START", "IMG_ISK_HASH_OFFSET", "IMG_ISK_HASH_SIZE")}
     if not all(isinstance(x, int) for x in v.values()):
         raise AnalysisError(f"C02.sign-what-precedes: BCA table constants do not fold: {v}")
